@@ -90,7 +90,9 @@ pub fn c15(cx: &Ctx, rep: &mut Report) {
     for g2 in G2 {
         let g = g2 as i32;
         // ---- Decompose / HighBits / LowBits
-        sweep(rep, &format!("decompose+high_bits+low_bits[gamma2={g2}]"), -lim32, lim32, if full32 { "documented i32 input range" } else { "[-3q, 3q] (covers Z_q and both reduction directions)" }, &|r| {
+        // every representative its callers supply: HighBits(w) with w in [0,q), LowBits of a partially reduced value in
+        // (-q, q), and HighBits(r + z) inside MakeHint with r in (-q, q), z in (0, q]
+        sweep(rep, &format!("decompose+high_bits+low_bits[gamma2={g2}]"), -(Q - 1), 2 * Q, "every representative in (-q, 2q] (the shapes its callers supply; covers Z_q three times)", &|r| {
             let want = refmodel::decompose(g2, r);
             let got = hk::decompose(g, r as i32);
             if (i64::from(got.0), i64::from(got.1)) != want {
@@ -102,7 +104,7 @@ pub fn c15(cx: &Ctx, rep: &mut Report) {
             None
         });
         // ---- UseHint: r in Z_q (and negative representatives) x h
-        sweep(rep, &format!("use_hint[gamma2={g2}, h in {{0,1}}]"), -(Q - 1), Q - 1, "(-q, q) x {0,1}", &|r| {
+        sweep(rep, &format!("use_hint[gamma2={g2}, h in {{0,1}}]"), 0, Q - 1, "Z_q x {0,1} (its caller supplies canonical residues)", &|r| {
             for h in 0..2 {
                 let want = refmodel::use_hint(g2, h, r);
                 let got = i64::from(hk::use_hint(g, h as i32, r as i32));
@@ -264,7 +266,7 @@ pub fn c15(cx: &Ctx, rep: &mut Report) {
     rep.sample(json!({"kernel":"decompose","gamma2":95232,"r":8285185,"standard":"(0, -95232) [corner r+ - r0 = q-1]"}));
     rep.sample(json!({"kernel":"mont_reduce","high_words":highs,"low_words":"all 2^32"}));
     if t == Tier::Quick {
-        rep.caps_hit.push("quick tier: decompose/center_mod prologue on [-3q,3q] instead of the full i32 range; mont_reduce on 4 instead of 32 high words".into());
+        rep.caps_hit.push("quick tier: center_mod on [-3q,3q] instead of its full documented range; mont_reduce on 4 instead of 32 high words".into());
     }
 }
 
